@@ -49,7 +49,7 @@ def bounds(tier):
 SH_Q = [[16, 16], [20, 20], [32, 32], [64, 64], [16, 32], [32, 20]]
 SH_T = SH_Q + [[48, 48], [64, 16], [48, 64], [96, 96], [128, 128], [128, 64]]
 ACC = [1.5, 2, 3, 4, 6, 8, 12]
-CAL = [[0, 0], [4, 4], [8, 6], [5, 7]]
+CAL = [[0, 0], [4, 4], [8, 6], [5, 7], [4, 12]]
 
 
 def gen_cases(tier, seed):
